@@ -144,8 +144,78 @@ def check(run):
     loop = [n for n in fb.node.body if isinstance(n, ast.For)]
     need(len(loop) == 1, "anchor: find_base64 loop")
     arg = convs[0].args[0]
-    S = arg.id if isinstance(arg, ast.Name) else None
-    need(S, "anchor: a2b_base64 applied to a named text")
+    need(isinstance(loop[0].iter, ast.Call) and isinstance(loop[0].target, ast.Name), "anchor: find_base64 iterates over matches")
+    MV = loop[0].target.id
+    defs = {}
+    for a in own_nodes(loop[0]):
+        if isinstance(a, ast.Assign) and len(a.targets) == 1 and isinstance(a.targets[0], ast.Name):
+            defs.setdefault(a.targets[0].id, []).append(a.value)
+
+    def chain(e, seen=()):
+        """(base expression, [removal ops]) of a text derived from the match by replace / re.sub calls; None when another shape."""
+        ops = []
+        while True:
+            if isinstance(e, ast.Name) and e.id in defs and len(defs[e.id]) == 1 and e.id not in seen:
+                seen = seen + (e.id,)
+                e = defs[e.id][0]
+            elif isinstance(e, ast.Call) and isinstance(e.func, ast.Attribute) and e.func.attr == "replace" and len(e.args) == 2 and not e.keywords:
+                ops.append(("replace", prog.try_fold(bm, e.args[0]), prog.try_fold(bm, e.args[1])))
+                e = e.func.value
+            elif isinstance(e, ast.Call) and prog.dotted(bm, e.func) in ("regex.sub", "re.sub") and len(e.args) == 3 and not e.keywords:
+                ops.append(("re.sub", prog.try_fold(bm, e.args[0]), prog.try_fold(bm, e.args[1])))
+                e = e.args[2]
+            else:
+                break
+        return e, ops[::-1]
+
+    def residue(form, ops):
+        """The break spelling after the removal chain (None: an op whose effect on it is not decided)."""
+        cur = form
+        for op in ops:
+            if not isinstance(op[1], bytes) or not isinstance(op[2], bytes):
+                return None
+            if op[0] == "replace":
+                cur = cur.replace(op[1], op[2])
+            else:
+                dd = rx.dfa_of(op[1])
+                out, i = b"", 0
+                while i < len(cur):
+                    js = [j for j in range(len(cur), i, -1) if rx.member(dd, cur[i:j])]
+                    if js:       # longest match here: the shipped escape patterns are unambiguous, greedy == longest
+                        out += op[2]
+                        i = js[0]
+                    else:
+                        out += cur[i:i + 1]
+                        i += 1
+                cur = out
+        return cur
+
+    whole = lambda e: isinstance(e, ast.Call) and isinstance(e.func, ast.Attribute) and e.func.attr == "group" and common.is_name(e.func.value, MV) and (  # noqa: E731
+        not e.args or (len(e.args) == 1 and prog.try_fold(bm, e.args[0]) == 0))
+    anyb = rb"(?s:.)*"
+    admitted = [f for f in GR.B64_LINE_BREAKS
+                if not rx.is_empty(rx.product(d, rx.dfa_of(anyb + b"".join(b"\\x%02x" % c for c in f) + anyb), lambda x, y: x and y))]
+    need(len(admitted) >= 4, "anchor: BASE64_RE admits line breaks and their escapes inside a match")
+    b64chars = set(GR.B64_ALPHABET + b"=")
+    base_a, ops_a = chain(arg)
+    guard_names = {n.id for st_ in loop[0].body if isinstance(st_, ast.If) for n in ast.walk(st_.test) if isinstance(n, ast.Name) and n.id in defs}
+    if isinstance(arg, ast.Name):
+        S = arg.id
+    else:
+        need(len(guard_names) == 1, "anchor: the acceptance rules of find_base64 test one text")
+        S = next(iter(guard_names))
+    base_s, ops_s = chain(ast.Name(id=S, ctx=ast.Load()))
+    bad = [(f, residue(f, ops_a)) for f in admitted]
+    bad = [(f, r) for f, r in bad if r is None or set(r) & b64chars]
+    run.ob("R1-provenance", "decoders.base64.find_base64/decoded-text-has-no-break-residue", whole(base_a) and not bad, f"{bm.rel}:{convs[0].lineno}",
+           "the text handed to a2b_base64 is the whole match with every admitted line break / escape reduced to characters outside the base64 alphabet "
+           "(a2b_base64 skips those; it would decode the digits of a surviving '&#13;')",
+           f"decoded text `{norm_src(arg)}` derives from `{norm_src(base_a)}`; surviving break spellings: {bad[:4]}", mech="removal chain applied to each break spelling BASE64_RE admits")
+    bad_s = [(f, residue(f, ops_s)) for f in admitted]
+    bad_s = [(f, r) for f, r in bad_s if r != b""]
+    run.ob("R3-acceptance", "decoders.base64.find_base64/guarded-text-is-clean", whole(base_s) and not bad_s, f"{bm.rel}:{convs[0].lineno}",
+           "the text the acceptance rules measure (length multiple of 4, distinct characters, ...) is the whole match with every admitted line break / escape "
+           "removed entirely", f"guarded text `{S}` derives from `{norm_src(base_s)}`; not removed: {bad_s[:4]}", mech="removal chain applied to each break spelling BASE64_RE admits")
     consts = {}
     for name in ("MIN_B64_CHARS", "HEX_RE", "CAMEL_RE"):
         try:
@@ -170,7 +240,7 @@ def check(run):
     run.ob("R3-acceptance", "decoders.base64.find_base64/rejection-guards", ok, f"{bm.rel}:{convs[0].lineno}",
            "a candidate is decoded iff its length is a multiple of 4, it has more than 6 distinct characters, it is not pure hex, not pure letters "
            "and not slash-heavy (> 3/32)", f"guards are {G.show(pc)}; differ from the statement at {G.show_model(cm) if cm else ''}", mech="truth table")
-    run.floor("R3-acceptance", 14)
+    run.floor("R3-acceptance", 15)
 
     # ------------------------------------------------------------------ R4 xor
     xm = prog.mod("xor_helper")
